@@ -4,7 +4,14 @@ package main
 //   c07obj  : the deviation catalogue of request objects (signature, key, kid, alg, iss, aud, client_id,
 //             exp, nbf, iat, jti, nesting, payload edit, JWE layer) delivered at /authorize by value and by
 //             reference, at /par and at /bc-authorize, under the OpenID, FAPI 1.0 and FAPI 2.0 profiles and
-//             three JAR configurations (optional / required with 'none' / two algorithms with client pins);
+//             three JAR configurations (optional / required with 'none' / two algorithms with client pins), every
+//             deviation once more inside a JWE where the JWE layer is enabled; then two cross products:
+//             the LAYER MATRIX  {no JWE, JWE for the server key, JWE for another key} x {signed, unsigned alg none,
+//             unsigned bare, stripped signature, 'none' over signature bytes} x {'none' off / on the server list /
+//             by client pin / on the list but pinned away} x {JWE enabled or not} x {JAR optional / required by the
+//             server / by the client} x {by value, by reference, par, bc-authorize}, and the NAVIGATION MATRIX
+//             {error-producing deviation inside or outside the object} x {where a registered / unregistered /
+//             foreign redirect_uri sits: object, query, both, neither} x {by value, by reference};
 //   c07hist : push / authorize / reuse / tick histories with two clients (pushing vs other client, expiry,
 //             second use, outer parameters) under the three profiles, with and without request objects.
 // Every case is evaluated by coqc against Model/Jar.v (Corr/C07.v: check_jcase) together with the
@@ -16,6 +23,7 @@ import (
 	"math/rand"
 	"os"
 	"path/filepath"
+	"sort"
 	"strings"
 )
 
@@ -25,6 +33,9 @@ Local Open Scope N_scope.
 `
 
 func ip(i int) *int { return &i }
+
+const c07Evil = "https://evil.example/cb"          // registered for nobody
+const c07PushedOnly = "https://pushed.example/cb" // registered for nobody, pushed where PAR admits unregistered URIs
 
 func c07Clients(jarReq1 bool) []ClientSpec {
 	allResp := []string{"code", "token", "id_token", "id_token token", "code id_token", "code token", "code id_token token"}
@@ -60,18 +71,22 @@ func (v c07Variant) has(name string) bool {
 	return false
 }
 
+func c07CommonOpts(profile string) []Opt {
+	o := []Opt{{Name: "WithScopes", Scopes: serverScopes}, {Name: "WithAuthorizationCodeGrant"}, {Name: "WithRefreshTokenGrant", Z: 600},
+		{Name: "WithCIBAGrant"}, {Name: "WithTokenIntrospection"}}
+	if profile == "fapi1" {
+		o = append(o, Opt{Name: "WithJARM"})
+	}
+	return o
+}
+
+func c07JClients(pin1, pin2, ciba5 string) []JClient {
+	return []JClient{{ID: 1, Keys: clientJWKS(1), JarAlg: pin1}, {ID: 2, Keys: clientJWKS(2), JarAlg: pin2}, {ID: 5, Keys: clientJWKS(5), CibaAlg: ciba5}}
+}
+
 func c07Variants(profile string) []c07Variant {
-	common := func() []Opt {
-		o := []Opt{{Name: "WithScopes", Scopes: serverScopes}, {Name: "WithAuthorizationCodeGrant"}, {Name: "WithRefreshTokenGrant", Z: 600},
-			{Name: "WithCIBAGrant"}, {Name: "WithTokenIntrospection"}}
-		if profile == "fapi1" {
-			o = append(o, Opt{Name: "WithJARM"})
-		}
-		return o
-	}
-	jcl := func(pin1, pin2, ciba5 string) []JClient {
-		return []JClient{{ID: 1, Keys: clientJWKS(1), JarAlg: pin1}, {ID: 2, Keys: clientJWKS(2), JarAlg: pin2}, {ID: 5, Keys: clientJWKS(5), CibaAlg: ciba5}}
-	}
+	common := func() []Opt { return c07CommonOpts(profile) }
+	jcl := c07JClients
 	var vs []c07Variant
 	// optional JAR, one algorithm, by reference allowed
 	vs = append(vs, c07Variant{Name: "optional", Profile: profile,
@@ -167,58 +182,79 @@ var roDevs = []roDev{
 	{"nested-both", func(o *RO, c int) { o.NestedReq = true; o.NestedURI = true }},
 	{"jwe", func(o *RO, c int) { o.Enc = "EncOk" }},
 	{"jwe-for-another-key", func(o *RO, c int) { o.Enc = "EncBad" }},
+	{"jwe-key-alg-not-enabled", func(o *RO, c int) { o.Enc, o.EncHow = "EncBad", "keyalg" }},
+	{"jwe-content-alg-not-enabled", func(o *RO, c int) { o.Enc, o.EncHow = "EncBad", "contentalg" }},
+	{"jwe-without-kid", func(o *RO, c int) { o.Enc, o.EncHow = "EncBad", "nokid" }},
 	{"jwe-around-unsigned", func(o *RO, c int) { o.Enc = "EncOk"; o.Sig = "SigEmpty"; o.SigKey = 0; o.Alg = "ANone"; o.Kid = 0 }},
 	{"inner-without-state", func(o *RO, c int) { o.Params.State = "" }},
 	{"inner-without-redirect", func(o *RO, c int) { o.Params.Redirect = "" }},
 	{"inner-scope-not-allowed", func(o *RO, c int) { o.Params.Scopes = "openid admin" }},
-	{"inner-redirect-not-registered", func(o *RO, c int) { o.Params.Redirect = "https://evil.example/cb" }},
+	{"inner-redirect-not-registered", func(o *RO, c int) { o.Params.Redirect = c07Evil }},
 	{"inner-without-response_type", func(o *RO, c int) { o.Params.RespType = "" }},
 }
 
-// parameters outside the object / pushed request at /authorize
+// parameters outside the object / pushed request at /authorize: a kind (valid or error-producing) and,
+// independently of it, where the outer redirect_uri points (so that every error-producing kind also meets an
+// unregistered redirect_uri)
 func outerParams(r *rand.Rand, profile string, client int) (Params, string) {
 	min := Params{RespType: "code", Scopes: "openid"}
-	switch x := r.Intn(20); {
+	p, name := min, "outer-minimal"
+	switch x := r.Intn(24); {
 	case x < 8:
-		return min, "outer-minimal"
 	case x < 10:
-		return Params{}, "outer-empty"
+		p, name = Params{}, "outer-empty"
 	case x < 12:
-		p := min
 		p.State = "st-out"
 		p.Nonce = "n-out"
-		return p, "outer-state-nonce"
+		name = "outer-state-nonce"
 	case x < 14:
-		p := min
 		p.Redirect = fmt.Sprintf("https://c%d.example/cb2", client)
-		return p, "outer-other-redirect"
+		name = "outer-other-redirect"
 	case x < 15:
-		p := min
-		p.Redirect = "https://evil.example/cb"
-		return p, "outer-unregistered-redirect"
+		p.Redirect = c07Evil
+		name = "outer-unregistered-redirect"
 	case x < 16:
-		p := min
 		p.Scopes = "email"
-		return p, "outer-scope-without-openid"
+		name = "outer-scope-without-openid"
 	case x < 17:
-		p := min
 		p.RespType = "code id_token"
 		p.Nonce = "n-out"
-		return p, "outer-other-response_type"
+		name = "outer-other-response_type"
 	case x < 18:
-		p := min
 		p.Scopes = "openid profile"
 		p.State = "st-out"
-		return p, "outer-more-scope"
+		name = "outer-more-scope"
 	case x < 19:
-		p := min
 		p.RespMode = "form_post"
-		return p, "outer-response_mode"
+		name = "outer-response_mode"
+	case x < 20:
+		p.Scopes = "openid admin"
+		name = "outer-scope-not-allowed"
+	case x < 21:
+		p.RespType = "bogus"
+		name = "outer-bad-response_type"
+	case x < 22:
+		p.RespMode = "bogus"
+		name = "outer-bad-response_mode"
+	case x < 23:
+		p.Method = "bogus"
+		name = "outer-bad-code_challenge_method"
 	default:
-		p := innerParams(profile, client)
+		p = innerParams(profile, client)
 		p.State = "st-out"
-		return p, "outer-full"
+		name = "outer-full"
 	}
+	if p.Redirect == "" {
+		switch r.Intn(10) {
+		case 0:
+			p.Redirect = c07Evil
+			name += "+unregistered-redirect"
+		case 1:
+			p.Redirect = fmt.Sprintf("https://c%d.example/cb", other(client))
+			name += "+other-clients-redirect"
+		}
+	}
+	return p, name
 }
 
 func c07Pol(r *rand.Rand) (Pol, bool) {
@@ -240,6 +276,36 @@ type jrunner struct {
 	cases []JCase
 	notes []string
 	stats map[string]int
+	cells map[string]map[string]map[string]int // row -> column -> outcome -> operations
+}
+
+// one input_distribution entry per row of the deviation matrix: "row: column => outcomes; ..." -> operations
+func (jr *jrunner) foldCells() {
+	for row, cols := range jr.cells {
+		var names []string
+		for c := range cols {
+			names = append(names, c)
+		}
+		sort.Strings(names)
+		total := 0
+		var parts []string
+		for _, c := range names {
+			var outs []string
+			for _, oc := range []string{"accepted", "error redirected", "refused"} {
+				if n := cols[c][oc]; n > 0 {
+					outs = append(outs, fmt.Sprintf("%s %d", oc, n))
+					total += n
+				}
+			}
+			if c == "" {
+				parts = append(parts, strings.Join(outs, ", "))
+			} else {
+				parts = append(parts, c+" => "+strings.Join(outs, ", "))
+			}
+		}
+		jr.stats[row+": "+strings.Join(parts, "; ")] += total
+	}
+	jr.cells = nil
 }
 
 func (jr *jrunner) run(v c07Variant, ops []JOp, note string) JCase {
@@ -264,9 +330,37 @@ func (jr *jrunner) run(v c07Variant, ops []JOp, note string) JCase {
 		if obs.Obs.Kind == "Nav" && obs.Obs.NErr != "" {
 			jr.stats["naverr:"+obs.Obs.NErr]++
 		}
+		if o.Cell != "" {
+			// the covered deviation matrix: Cell = row|column, tallied per outcome
+			row, col := o.Cell, ""
+			if i := strings.LastIndex(o.Cell, "|"); i >= 0 && strings.Count(o.Cell, "|") >= 2 {
+				row, col = o.Cell[:i], o.Cell[i+1:]
+			}
+			if jr.cells == nil {
+				jr.cells = map[string]map[string]map[string]int{}
+			}
+			if jr.cells[row] == nil {
+				jr.cells[row] = map[string]map[string]int{}
+			}
+			if jr.cells[row][col] == nil {
+				jr.cells[row][col] = map[string]int{}
+			}
+			jr.cells[row][col][c07Outcome(obs.Obs)]++
+		}
 	}
 	jr.cases = append(jr.cases, c)
 	return c
+}
+
+// outcome classes of the deviation matrix printed into meta.json
+func c07Outcome(o Obs) string {
+	switch {
+	case obsOK(o):
+		return "accepted"
+	case o.Kind == "Nav":
+		return "error redirected"
+	}
+	return "refused"
 }
 
 func obsOK(o Obs) bool {
@@ -342,6 +436,7 @@ func (jr *jrunner) write(monitor string) {
 		}
 		ctx.Meta.Samples = append(ctx.Meta.Samples, map[string]any{"note": cs.Note, "options": cList(cs.Opts, Opt.coq), "first_ops": ops})
 	}
+	jr.foldCells()
 	for k, v := range jr.stats {
 		ctx.Meta.Dist[k] += v
 	}
@@ -362,7 +457,7 @@ func mkPar(r *rand.Rand, client int, obj *RO, note string) JOp {
 	case 0:
 		outer = Params{State: "st-out", Scopes: "openid profile", Redirect: fmt.Sprintf("https://c%d.example/cb2", client)}
 	case 1:
-		outer = Params{Redirect: "https://evil.example/cb"}
+		outer = Params{Redirect: c07Evil}
 	}
 	jar := ""
 	if obj != nil {
@@ -385,6 +480,382 @@ func mkBc(r *rand.Rand, client int, obj *RO, note string) JOp {
 	}
 	return JOp{Kind: "JBc", Base: Op{Kind: "BcAuthorize", Cred: Cred{ID: client, OK: true}, Params: outer, InitOK: true, Sub: "alice", Granted: "openid"},
 		Jar: jar, Obj: obj, Note: note}
+}
+
+// ---- the layer matrix: JWE layer x inner object kind x 'none' enabled or not x JWE enabled or not x JAR required or not ----
+var c07Layers = []string{"EncNone", "EncOk", "EncBad"}
+var c07Inner = []string{"valid", "unsigned-none", "unsigned-none-bare", "stripped-signature", "none-over-signature-bytes"}
+var c07NoneModes = []string{"off", "on the server list", "by client pin", "on the list but pinned away"}
+var c07ReqModes = []string{"optional", "required by the server", "required by the client"}
+
+func c07Dev(name string) roDev {
+	for _, d := range roDevs {
+		if d.Name == name {
+			return d
+		}
+	}
+	panic("no deviation " + name)
+}
+
+// the JAR configuration of a matrix cell; client 1 carries the pins (client 2 is never pinned)
+func c07MatrixVariant(profile string, none int, enc bool, req int, cibaNone bool) c07Variant {
+	o := append(c07CommonOpts(profile), Opt{Name: "WithPAR", Z: 60})
+	if req == 1 {
+		o = append(o, Opt{Name: "WithJARRequired"})
+	} else {
+		o = append(o, Opt{Name: "WithJAR"})
+	}
+	o = append(o, Opt{Name: "WithJARByReference"}, Opt{Name: "WithCIBAJAR"}, Opt{Name: "WithImplicitGrant"})
+	jc := JCfg{Algs: []string{"AES256"}, Enc: enc, CibaAlgs: []string{"AES256"}}
+	pin1 := ""
+	switch none {
+	case 1:
+		jc.Algs = append(jc.Algs, "ANone")
+	case 2:
+		pin1 = "ANone"
+	case 3:
+		jc.Algs = append(jc.Algs, "ANone")
+		pin1 = "AES256"
+	}
+	if cibaNone {
+		jc.CibaAlgs = append(jc.CibaAlgs, "ANone")
+	}
+	encs := "JWE disabled"
+	if enc {
+		encs = "JWE enabled"
+	}
+	return c07Variant{Name: fmt.Sprintf("none %s, %s, JAR %s", c07NoneModes[none], encs, c07ReqModes[req]), Profile: profile, Opts: o, JC: jc,
+		Static: c07Clients(req == 2), JCl: c07JClients(pin1, "", "")}
+}
+
+func c07LayerMatrix(jr *jrunner) {
+	ctx, r := jr.ctx, jr.ctx.R
+	reps := ctx.N(1, 3)
+	cfgIndex := func(none int, enc bool, req int) int {
+		k := none*6 + req
+		if enc {
+			k += 3
+		}
+		return k
+	}
+	for pi, profile := range []string{"openid", "fapi1", "fapi2"} {
+		for none := range c07NoneModes {
+			for _, enc := range []bool{false, true} {
+				for req := range c07ReqModes {
+					if ctx.Quick() && (cfgIndex(none, enc, req)+int(ctx.Seed))%3 != pi {
+						// quick tier: every one of the 24 configurations is run, under one of the three profiles
+						// (rotating with the seed; the resolver reads the profile only for the validity window)
+						continue
+					}
+					cibaNone := none == 1
+					v := c07MatrixVariant(profile, none, enc, req, cibaNone)
+					deliveries := []string{"authorize-value", "authorize-ref", "par"}
+					if req == 0 && none <= 1 || !ctx.Quick() {
+						deliveries = append(deliveries, "bc") // /bc-authorize reads none of the three switches but CIBAJARSigAlgs
+					}
+					for rep := 0; rep < reps; rep++ {
+						for _, delivery := range deliveries {
+							client := 1
+							if none <= 1 && r.Intn(4) == 0 {
+								client = 2
+							}
+							var ops []JOp
+							for _, layer := range c07Layers {
+								for _, inner := range c07Inner {
+									var o RO
+									if delivery == "bc" {
+										o = cibaRO(5)
+										c07Dev(inner).F(&o, 5)
+									} else {
+										o = baseRO(profile, client)
+										c07Dev(inner).F(&o, client)
+									}
+									o.Enc = layer
+									if layer == "EncBad" {
+										o.EncHow = pick(r, []string{"", "keyalg", "contentalg", "nokid"})
+									}
+									oc := o
+									note := inner + " in " + layer
+									var op JOp
+									switch delivery {
+									case "authorize-value":
+										op = mkAuthorize(r, profile, client, "value", &oc, true, note)
+									case "authorize-ref":
+										op = mkAuthorize(r, profile, client, "ref", &oc, true, note)
+									case "par":
+										op = mkPar(r, client, &oc, note)
+									case "bc":
+										op = mkBc(r, 5, &oc, note)
+									}
+									if delivery == "bc" {
+										op.Cell = fmt.Sprintf("matrix|bc-authorize, CIBA none %v|%s|%s", cibaNone, layer, inner)
+									} else {
+										op.Cell = fmt.Sprintf("matrix|%s|%s|%s", v.Name, layer, inner)
+									}
+									ops = append(ops, op)
+								}
+							}
+							var op JOp
+							switch delivery {
+							case "authorize-value":
+								op = mkAuthorize(r, profile, client, "", nil, true, "no-object")
+							case "authorize-ref":
+								op = mkAuthorize(r, profile, client, "ref", nil, true, "fetch-404")
+							case "par":
+								op = mkPar(r, client, nil, "no-object")
+							case "bc":
+								op = mkBc(r, 5, nil, "no-object")
+								op.Base.Params = Params{Scopes: "openid email", LoginHint: "alice@example"}
+							}
+							if delivery != "bc" {
+								op.Cell = fmt.Sprintf("matrix|%s|no object|-", v.Name)
+							}
+							ops = append(ops, op)
+							half := len(ops) / 2
+							for _, part := range [][]JOp{ops[:half], ops[half:]} {
+								var ns []string
+								for _, o := range part {
+									ns = append(ns, strings.SplitN(o.Note, "/", 2)[0])
+								}
+								jr.run(v, part, fmt.Sprintf("%s/layer matrix: %s/%s: %s", profile, v.Name, delivery, strings.Join(ns, ", ")))
+							}
+						}
+					}
+				}
+			}
+		}
+	}
+}
+
+// ---- the navigation matrix: error-producing deviation x where which redirect_uri sits ----
+type c07ErrDev struct {
+	Name string
+	F    func(op *JOp)
+}
+
+var c07ErrDevs = []c07ErrDev{
+	{"no error", func(op *JOp) {}},
+	{"nested request", func(op *JOp) { op.Obj.NestedReq = true }},
+	{"nested request_uri", func(op *JOp) { op.Obj.NestedURI = true }},
+	{"nested request and request_uri", func(op *JOp) { op.Obj.NestedReq, op.Obj.NestedURI = true, true }},
+	{"inner scope not allowed", func(op *JOp) { op.Obj.Params.Scopes = "openid admin" }},
+	{"inner scope unknown", func(op *JOp) { op.Obj.Params.Scopes = "openid nonsense" }},
+	{"inner bad response_type", func(op *JOp) { op.Obj.Params.RespType = "bogus" }},
+	{"inner without response_type", func(op *JOp) { op.Obj.Params.RespType = "" }},
+	{"inner id_token without nonce", func(op *JOp) { op.Obj.Params.RespType, op.Obj.Params.Nonce = "code id_token", "" }},
+	{"inner bad response_mode", func(op *JOp) { op.Obj.Params.RespMode = "bogus" }},
+	{"inner query mode for implicit", func(op *JOp) { op.Obj.Params.RespType, op.Obj.Params.RespMode = "id_token", "query" }},
+	{"inner bad code_challenge_method", func(op *JOp) { op.Obj.Params.Method = "bogus" }},
+	{"outer scope not allowed", func(op *JOp) { op.Base.Params.Scopes = "openid admin" }},
+	{"outer scope without openid", func(op *JOp) { op.Base.Params.Scopes = "email" }},
+	{"outer bad response_type", func(op *JOp) { op.Base.Params.RespType = "bogus" }},
+	{"outer response_type differs", func(op *JOp) { op.Base.Params.RespType, op.Base.Params.Nonce = "code id_token", "n-out" }},
+	{"outer without response_type", func(op *JOp) { op.Base.Params.RespType = "" }},
+	{"outer bad response_mode", func(op *JOp) { op.Base.Params.RespMode = "bogus" }},
+	{"outer bad code_challenge_method", func(op *JOp) { op.Base.Params.Method = "bogus" }},
+	{"policy fails", func(op *JOp) { op.Base.PolicyAvail, op.Base.Pol = true, Pol{Kind: "PolFail"} }},
+	{"policy fails with an error", func(op *JOp) { op.Base.PolicyAvail, op.Base.Pol = true, Pol{Kind: "PolFailWith", Err: "ELoginRequired"} }},
+	{"policy succeeds", func(op *JOp) {
+		op.Base.PolicyAvail, op.Base.Pol = true, Pol{Kind: "PolSuccess", Sub: "alice", Granted: "openid"}
+	}},
+}
+
+// R: registered for the client, R2: another registered one, E: registered for nobody, O: registered for the other
+// client only, N: a registered one with a path appended
+var c07Placements = []struct{ Name, In, Out string }{
+	{"object: registered", "R", ""},
+	{"object: unregistered", "E", ""},
+	{"query: unregistered", "", "E"},
+	{"object: registered, query: unregistered", "R", "E"},
+	{"object: unregistered, query: registered", "E", "R"},
+	{"nowhere", "", ""},
+	{"query: registered", "", "R"},
+	{"object: other client's", "O", ""},
+	{"query: other client's", "", "O"},
+	{"object: registered, query: another registered", "R", "R2"},
+	{"object: registered plus a path", "N", ""},
+	{"object: unregistered, query: unregistered", "E", "E"},
+}
+
+func c07Redirect(kind string, client int) string {
+	switch kind {
+	case "R":
+		return fmt.Sprintf("https://c%d.example/cb", client)
+	case "R2":
+		return "https://shared.example/cb"
+	case "E":
+		return c07Evil
+	case "O":
+		return fmt.Sprintf("https://c%d.example/cb", other(client))
+	case "N":
+		return fmt.Sprintf("https://c%d.example/cb/x", client)
+	}
+	return ""
+}
+
+func c07NavMatrix(jr *jrunner) {
+	ctx, r := jr.ctx, jr.ctx.R
+	for _, profile := range []string{"openid", "fapi1", "fapi2"} {
+		vs := c07Variants(profile)
+		use := []c07Variant{vs[0]}
+		if !ctx.Quick() {
+			use = append(use, vs[2], c07MatrixVariant(profile, 1, true, 1, false))
+		}
+		for _, v := range use {
+			var ops []JOp
+			flush := func() {
+				if len(ops) > 0 {
+					var ns []string
+					for _, o := range ops {
+						ns = append(ns, o.Note)
+					}
+					jr.run(v, ops, fmt.Sprintf("%s/%s/navigation matrix: %s", profile, v.Name, strings.Join(ns, "; ")))
+					ops = nil
+				}
+			}
+			for i, d := range c07ErrDevs {
+				for j, pl := range c07Placements {
+					deliveries := []string{"value"}
+					if !ctx.Quick() || (i+j+int(ctx.Seed))%3 == 0 {
+						deliveries = append(deliveries, "ref")
+					}
+					for _, delivery := range deliveries {
+						client := 1
+						if r.Intn(5) == 0 {
+							client = 2
+						}
+						o := baseRO(profile, client)
+						if strings.Contains(v.Name, "none") && r.Intn(2) == 0 {
+							c07Dev("unsigned-none").F(&o, client)
+						}
+						op := mkAuthorize(r, profile, client, delivery, &o, true, d.Name+" / "+pl.Name)
+						op.Base.Params = Params{RespType: "code", Scopes: "openid"}
+						o.Params.Redirect, op.Base.Params.Redirect = c07Redirect(pl.In, client), c07Redirect(pl.Out, client)
+						switch r.Intn(6) {
+						case 0:
+							// errors and codes delivered by an auto-submitted form
+							if profile != "fapi1" {
+								o.Params.RespMode = "form_post"
+							}
+						case 1:
+							op.Base.Params.State = "st-out"
+						}
+						d.F(&op)
+						op.Note = d.Name + " / " + pl.Name + " / by " + delivery
+						op.Cell = fmt.Sprintf("nav|%s|%s", d.Name, pl.Name)
+						ops = append(ops, op)
+						if len(ops) >= 8 {
+							flush()
+						}
+					}
+				}
+			}
+			flush()
+			// an object that is NOT authentic for the client, carrying an error-producing deviation and a redirect_uri:
+			// it must be refused on the spot, whatever else it carries (any navigation means its parameters were used)
+			for _, an := range c07Unauthentic {
+				for k := 0; k < ctx.N(3, 12); k++ {
+					client := 1
+					d := c07ErrDevs[1+r.Intn(len(c07ErrDevs)-1)]
+					pl := c07Placements[r.Intn(len(c07Placements))]
+					delivery := pick(r, []string{"value", "value", "ref"})
+					if k == 0 {
+						// always: a nested request / request_uri (the one error validateRequestWithJAR itself redirects),
+						// with a registered redirect_uri so that nothing else stops the request
+						d, pl, delivery = c07ErrDevs[1+r.Intn(3)], c07Placements[0], "value"
+					}
+					o := baseRO(profile, client)
+					c07Dev(an).F(&o, client)
+					op := mkAuthorize(r, profile, client, delivery, &o, true, "")
+					op.Base.Params = Params{RespType: "code", Scopes: "openid"}
+					o.Params.Redirect, op.Base.Params.Redirect = c07Redirect(pl.In, client), c07Redirect(pl.Out, client)
+					d.F(&op)
+					op.Note = an + " + " + d.Name + " / " + pl.Name + " / by " + delivery
+					op.Cell = fmt.Sprintf("nav-unauthentic|%s|%s", an, d.Name)
+					ops = append(ops, op)
+					if len(ops) >= 8 {
+						flush()
+					}
+				}
+			}
+			flush()
+		}
+	}
+}
+
+var c07Unauthentic = []string{"client_id-other", "client_id-absent", "iss-other-client", "foreign-key", "other-clients-key-its-kid", "payload-edited",
+	"aud-wrong", "exp-expired", "nbf-future", "unsigned-none", "stripped-signature", "none-over-signature-bytes", "jwe", "jwe-around-unsigned"}
+
+// directed push / redeem pairs: where the pushed request's redirect_uri points (registered, registered nowhere,
+// absent) x the redirect_uri sent again at redemption (none, the pushed one, another unregistered one, a registered
+// one) x unregistered redirect_uris admitted for PAR or not x pushed as an object or as plain parameters
+func c07PushedRedirects(jr *jrunner) {
+	r := jr.ctx.R
+	for _, profile := range []string{"openid", "fapi1", "fapi2"} {
+		for _, unreg := range []bool{false, true} {
+			for _, via := range []string{"object", "plain"} {
+				for _, pushed := range []string{"R", "P", ""} {
+					v := c07Variants(profile)[0]
+					if unreg {
+						v.Opts = append(v.Opts, Opt{Name: "WithUnregisteredRedirectURIsForPAR"})
+						v.Name += "+par-unregistered"
+					}
+					spec := WorldSpec{Profile: v.Profile, Opts: v.Opts, Static: v.Static, Flavour: "copy"}
+					jw, err := NewJWorld(spec, v.JC, v.JCl)
+					if err != nil {
+						panic(err)
+					}
+					c := JCase{Profile: v.Profile, Opts: v.Opts, JCfg: v.JC, Static: v.Static, JCl: v.JCl}
+					do := func(o JOp) JObs {
+						obs := jw.Exec(len(c.Ops), o)
+						c.Ops = append(c.Ops, o)
+						c.Obs = append(c.Obs, obs)
+						jr.stats["op:"+o.Kind+"/"+o.Jar]++
+						jr.stats["obs:"+obs.Obs.Kind]++
+						return obs
+					}
+					redirect := func(k string) string {
+						if k == "P" {
+							return c07PushedOnly
+						}
+						return c07Redirect(k, 1)
+					}
+					for _, again := range []string{"", "same", "E", "R2"} {
+						var op JOp
+						if via == "object" {
+							o := baseRO(profile, 1)
+							o.Params.Redirect = redirect(pushed)
+							op = mkPar(r, 1, &o, "push-object")
+							op.Base.Params = Params{}
+						} else {
+							op = mkPar(r, 1, nil, "push-plain")
+							op.Base.Params = innerParams(profile, 1)
+							op.Base.Params.Redirect = redirect(pushed)
+						}
+						obs := do(op)
+						if obs.Obs.Kind != "Par" {
+							continue
+						}
+						red := mkAuthorize(r, profile, 1, "", nil, true, "redeem")
+						red.Base.Params = Params{RespType: "code", Scopes: "openid", RequestURI: obs.Obs.H}
+						switch again {
+						case "same":
+							red.Base.Params.Redirect = redirect(pushed)
+						case "E", "R2":
+							red.Base.Params.Redirect = redirect(again)
+						}
+						if r.Intn(3) == 0 {
+							red.Base.Params.Scopes = "openid admin" // an error to be redirected
+						}
+						x := do(red)
+						jr.stats[fmt.Sprintf("pushed|unregistered admitted %v|pushed as %s|pushed redirect_uri %q, at redemption %q => %s", unreg, via, pushed, again, c07Outcome(x.Obs))]++
+					}
+					c.Note = fmt.Sprintf("%s/%s directed push/redeem, pushed redirect_uri %q as %s", profile, v.Name, redirect(pushed), via)
+					jr.cases = append(jr.cases, c)
+				}
+			}
+		}
+	}
 }
 
 func init() {
@@ -429,20 +900,31 @@ func init() {
 									}
 								}
 							}
-							oc := o
-							switch delivery {
-							case "authorize-value":
-								ops = append(ops, mkAuthorize(r, profile, client, "value", &oc, true, d.Name))
-							case "authorize-ref":
-								ops = append(ops, mkAuthorize(r, profile, client, "ref", &oc, r.Intn(12) != 0, d.Name))
-							case "par":
-								ops = append(ops, mkPar(r, client, &oc, d.Name))
-							case "bc":
-								ops = append(ops, mkBc(r, 5, &oc, d.Name))
+							objs := []RO{o}
+							onames := []string{d.Name}
+							if v.JC.Enc && o.Enc == "EncNone" && (delivery != "bc" || r.Intn(4) == 0) {
+								// the same deviation behind the JWE layer: every guard must see the decrypted object
+								w := o
+								w.Enc = "EncOk"
+								objs, onames = append(objs, w), append(onames, d.Name+"+jwe")
 							}
-							names = append(names, d.Name)
-							if len(ops) >= chunk {
-								flush()
+							for k := range objs {
+								oc := objs[k]
+								switch delivery {
+								case "authorize-value":
+									ops = append(ops, mkAuthorize(r, profile, client, "value", &oc, true, onames[k]))
+								case "authorize-ref":
+									ops = append(ops, mkAuthorize(r, profile, client, "ref", &oc, r.Intn(12) != 0, onames[k]))
+								case "par":
+									ops = append(ops, mkPar(r, client, &oc, onames[k]))
+								case "bc":
+									ops = append(ops, mkBc(r, 5, &oc, onames[k]))
+								}
+								ops[len(ops)-1].Cell = "catalogue|" + onames[k]
+								names = append(names, onames[k])
+								if len(ops) >= chunk {
+									flush()
+								}
 							}
 						}
 						// no object at all; fetch failure
@@ -464,13 +946,17 @@ func init() {
 				}
 			}
 		}
-		ctx.Meta.Rule = "deviation catalogue of request objects (43 deviations of a valid object) x {authorize by value, authorize by reference, par, bc-authorize} x {openid, fapi1, fapi2} x 3 JAR configurations, outer parameters and policy verdicts drawn at random; distinct by projected trace; non-trivial = at least one accepted and one refused request in the history"
+		c07LayerMatrix(jr)
+		c07NavMatrix(jr)
+		ctx.Meta.Rule = fmt.Sprintf("deviation catalogue of request objects (%d deviations of a valid object, each once more inside a JWE where the JWE layer is enabled) x {authorize by value, authorize by reference, par, bc-authorize} x {openid, fapi1, fapi2} x 3 JAR configurations; LAYER MATRIX %d JWE layers x %d inner object kinds x {none: %s} x {JWE enabled, disabled} x {JAR %s} x {by value, by reference, par, bc-authorize} x 3 profiles; NAVIGATION MATRIX %d error-producing deviations (inside / outside the object, policy failure) x %d placements of registered / unregistered / foreign redirect_uris x {by value, by reference} x 3 profiles; outer parameters and policy verdicts drawn at random; distinct by projected trace; non-trivial = at least one accepted and one refused request in the history; the matrix cells with their outcomes are listed in input_distribution (catalogue|..., matrix|..., nav|...)",
+			len(roDevs), len(c07Layers), len(c07Inner), strings.Join(c07NoneModes, ", "), strings.Join(c07ReqModes, ", "), len(c07ErrDevs), len(c07Placements))
 		jr.write("mon_C07")
 	}})
 
 	register(&Suite{Name: "c07hist", Run: func(ctx *RunCtx) {
 		jr := &jrunner{ctx: ctx, stats: map[string]int{}}
 		r := ctx.R
+		c07PushedRedirects(jr)
 		n := ctx.N(150, 4000)
 		for i := 0; i < n; i++ {
 			profile := []string{"openid", "fapi1", "fapi2"}[i%3]
@@ -487,6 +973,11 @@ func init() {
 			}
 			if r.Intn(4) == 0 {
 				v.Static[1].ParReq = true
+			}
+			if r.Intn(4) == 0 {
+				// PAR admits redirect_uris that are not registered: such a URI is good for the pushed request only
+				v.Opts = append(append([]Opt{}, v.Opts...), Opt{Name: "WithUnregisteredRedirectURIsForPAR"})
+				v.Name += "+par-unregistered"
 			}
 			var ops []JOp
 			type pushedURI struct {
@@ -532,6 +1023,9 @@ func init() {
 						if r.Intn(3) == 0 {
 							o.Params.State = ""
 						}
+						if r.Intn(6) == 0 {
+							o.Params.Redirect = c07PushedOnly
+						}
 						op = mkPar(r, client, &o, "push-object")
 					} else {
 						op = mkPar(r, client, nil, "push-plain")
@@ -544,6 +1038,8 @@ func init() {
 						}
 						if r.Intn(4) == 0 {
 							op.Base.Params.Redirect = ""
+						} else if r.Intn(6) == 0 {
+							op.Base.Params.Redirect = c07PushedOnly
 						}
 					}
 					obs := do(op)
@@ -566,17 +1062,27 @@ func init() {
 						op.Jar, op.Obj = "value", &o
 					}
 					op.Base.Params.RequestURI = u.h
+					if op.Base.Params.Redirect == "" && r.Intn(10) == 0 {
+						op.Base.Params.Redirect = c07PushedOnly // allowed only if it is the one of this pushed request
+					}
 					do(op)
 				case x < 18:
 					do(JOp{Kind: "Base", Base: Op{Kind: "Tick", D: pick(r, []int{20, 45, 70})}})
 				default:
 					// an authorization request without request_uri: by value or plain
+					// (a URI that was only pushed is not registered: fix 3b355ea)
 					if r.Intn(2) == 0 {
 						o := baseRO(profile, client)
+						if r.Intn(5) == 0 {
+							o.Params.Redirect = c07PushedOnly
+						}
 						do(mkAuthorize(r, profile, client, "value", &o, true, "by-value"))
 					} else {
 						op := mkAuthorize(r, profile, client, "", nil, true, "plain")
 						op.Base.Params = innerParams(profile, client)
+						if r.Intn(5) == 0 {
+							op.Base.Params.Redirect = c07PushedOnly
+						}
 						do(op)
 					}
 				}
@@ -584,7 +1090,7 @@ func init() {
 			c.Note = fmt.Sprintf("%s/%s history %d", profile, v.Name, i)
 			jr.cases = append(jr.cases, c)
 		}
-		ctx.Meta.Rule = "random push / authorize (pushing or other client, outer parameters, policy verdicts) / reuse / tick histories with two clients, with and without request objects, three profiles, PAR optional or required; distinct by projected trace; non-trivial = at least one accepted and one refused request"
+		ctx.Meta.Rule = "random push / authorize (pushing or other client, outer parameters incl. error-producing ones combined with unregistered redirect_uris, policy verdicts) / reuse / tick histories with two clients, with and without request objects, three profiles, PAR optional or required, unregistered redirect_uris admitted for PAR or not (a pushed-only URI presented again in later pushed, by-value and plain requests); distinct by projected trace; non-trivial = at least one accepted and one refused request"
 		jr.write("mon_C07")
 	}})
 }
